@@ -83,29 +83,39 @@ class WorkspaceRemoveChildren(Contract):
     lenient = True
 
     def cases(self):
-        kinds = ("points", "group", "data", "property-group")
-        return [c for n in (1, 2, 3) for c in itertools.product(kinds, repeat=n)]
+        kinds = ("points", "group", "data", "property-group", "property-group-of-another-object")
+        return [c for n in (1, 2, 3) for c in itertools.product(kinds, repeat=n) if n < 3 or "property-group-of-another-object" not in c or c.count("property-group-of-another-object") == 1]
 
     def setup(self, ctx):
         me = ws_obj(ctx, "open", "r+")
         me.fields["_io_call"] = io_call_summary(ctx)
         kids = []
-        for i, kind in enumerate(ctx.case):
-            k = Opaque(f"child{i}", cls=_classes()[kind])
-            k.attrs["uid"] = Opaque(f"uid{i}")
-            kids.append(k)
         parent = Opaque("parent")
+        elsewhere = Opaque("another-object")
+        for o_ in (parent, elsewhere):
+            o_.distinct = True
+        for i, kind in enumerate(ctx.case):
+            k = Opaque(f"child{i}", cls=_classes()["property-group" if kind.startswith("property-group") else kind])
+            k.attrs["uid"] = Opaque(f"uid{i}")
+            k.attrs["parent"] = elsewhere if kind == "property-group-of-another-object" else parent
+            kids.append(k)
         ctx.env.update(kids=kids, parent=parent)
         return [me, parent, PList(kids)], {}
 
     def post(self, ctx, result):
         e = ctx.env
         ios = [p for k, p in ctx.path.events if k == "io"]
-        ctx.oblige("one-file-operation-per-child-in-order", len(ios) == len(e["kids"]))
-        if len(ios) != len(e["kids"]):
+        foreign = [kid for kind, kid in zip(ctx.case, e["kids"]) if kind == "property-group-of-another-object"]
+        # a property group lives on its own object: one that belongs to another object is not a child of this parent,
+        # and nothing of it is touched (the other kinds are unlinked *under this parent*, a no-op when they are not there)
+        ctx.oblige("a-property-group-of-another-object-is-left-alone", not any(any(a is f for a in io["args"]) for io in ios for f in foreign),
+                   note="the group was deleted from the stored node of the object that owns it although it was asked to leave another parent")
+        mine = [(kind, kid) for kind, kid in zip(ctx.case, e["kids"]) if kind != "property-group-of-another-object"]
+        ctx.oblige("one-file-operation-per-child-in-order", len(ios) == len(mine))
+        if len(ios) != len(mine):
             return
         want = {"points": "Objects", "group": "Groups", "data": "Data"}
-        for i, (kind, kid, io) in enumerate(zip(ctx.case, e["kids"], ios)):
+        for i, ((kind, kid), io) in enumerate(zip(mine, ios)):
             if kind == "property-group":
                 ctx.oblige(f"child{i}-property-group-is-removed-from-its-object", io["fun"] == "add_or_update_property_group" and io["args"][0] is kid and io["kw"].get("remove") is True)
             else:
